@@ -104,6 +104,29 @@ def run(rep, tier):
             args = "".join(f" (i {x})" for x in (a, b, c) if x is not None)
             add(f"(slice {sx} {ms})",
                 f'(call "(s: {pty}{params}) -> any {{ return s[{text}]; }}" {sx}{args})', exp, ("slice", kind))
+        # a LITERAL (constant) sequence sliced with run-time bounds, and with bounds of which only some
+        # are literals: the folding pass sees a constant sequence but may not drop or fix a bound
+        sub2 = [None, -7, -2, -1, 0, 1, 2, 7, MIN]
+        for a, b, c in itertools.product(sub2, repeat=3):
+            if a is None and b is None and c is None:
+                continue
+            sel = [] if c == 0 else py[slice(a, b, c)]
+            exp = show_sel(kind, sel)
+            ms = " ".join("none" if x is None else f"(i {x})" for x in (a, b, c))
+            params = ", ".join(f"{nm}: int" for nm, x in zip("abc", (a, b, c)) if x is not None)
+            text = ("a" if a is not None else "") + ":" + ("b" if b is not None else "") + \
+                   (":" + ("c" if c is not None else "") if c is not None else "")
+            args = "".join(f" (i {x})" for x in (a, b, c) if x is not None)
+            add(f"(slice {sx} {ms})",
+                f'(call "({params}) -> any {{ return {esc_prog(lit)}[{text}]; }}"{args})', exp, ("slice-litseq-rtbounds", kind))
+            # the sequence bound to a constant variable; the first present bound stays a parameter, the others are literals
+            first = next(nm for nm, x in zip("abc", (a, b, c)) if x is not None)
+            fx = {"a": a, "b": b, "c": c}[first]
+            mixed = ((first if first == "a" else lit_int(a)) if a is not None else "") + ":" + \
+                    ((first if first == "b" else lit_int(b)) if b is not None else "") + \
+                    (":" + ((first if first == "c" else lit_int(c)) if c is not None else "") if c is not None else "")
+            add(f"(slice {sx} {ms})",
+                f'(call "({first}: int) -> any {{ q := {esc_prog(lit)}; return q[{mixed}]; }}" (i {fx}))', exp, ("slice-constvar-mixed", kind))
         # literal (folded) slices on a sub-grid, with the static type
         sub = [None, -7, -2, -1, 0, 1, 2, 7, MIN, MAX]
         for a, b, c in itertools.product(sub, repeat=3):
